@@ -31,17 +31,22 @@
 (* for-init declaration and the loop body are one scope in C++), lambda    *)
 (* (init-captures, parameters and body).                                   *)
 (*                                                                         *)
-(* Bounds and feature switches come from IOEnv.PARAMS (one JSON line).     *)
+(* Bounds and feature switches come from IOEnv.PARAMS (one JSON line per   *)
+(* profile; a behaviour belongs to one profile, so one TLC run enumerates  *)
+(* the programs of all profiles).                                          *)
 (* A program is written to IOEnv.OUT (one JSON line, appended) when it has *)
 (* reached P.K items; open scopes are closed by Finish.                    *)
 (***************************************************************************)
 EXTENDS ScopesText, Json, IOUtils
 
-VARIABLES stack, tabs, decl, prog
-vars == <<stack, tabs, decl, prog>>
+VARIABLES stack, tabs, decl, prog,
+          pf          \* which profile (line of IOEnv.PARAMS) this behaviour obeys; chosen initially, never changed
+vars == <<stack, tabs, decl, prog, pf>>
 \* (the number of items of prog that are not closing braces is Size; Next writes nothing once Size = P.K)
 
-P == ndJsonDeserialize(IOEnv.PARAMS)[1]
+Profiles == ndJsonDeserialize(IOEnv.PARAMS)
+P == Profiles[pf]
+\* P.name    label of the profile, copied into every emitted program
 \* P.K       number of items (closing braces not counted) of an emitted program
 \* P.nv      number of variable names (1..3)
 \* P.depth   maximal number of open scopes below the file
@@ -384,6 +389,7 @@ ArgLists == SeqsUpTo(ArgT, 2)
 (* The behaviours.                                                         *)
 (***************************************************************************)
 Init ==
+  /\ pf \in DOMAIN Profiles
   /\ stack = <<Frame("file", <<>>, NoVars, NoCap, {})>>
   /\ tabs = (<<>> :> [v |-> NoVars, f |-> {}])
   /\ decl = <<>>
@@ -415,6 +421,7 @@ ScopeNext ==
 Next == /\ Size < P.K
         /\ \/ Close
            \/ IF InBody THEN BodyNext ELSE ScopeNext
+        /\ UNCHANGED pf
 
 Spec == Init /\ [][Next]_vars
 
@@ -428,22 +435,24 @@ Spec == Init /\ [][Next]_vars
 (*                  the use, or is a member of a class the use is inside   *)
 (*                  (the only place where the language looks ahead)        *)
 (***************************************************************************)
-UsesBound ==
-  \A t \in Toks(prog) : t.role \in {"use", "call"} /\ t.id # 0 =>
-      /\ t.id \in DOMAIN decl /\ decl[t.id].nm = t.nm
-      /\ Cardinality({d \in Toks(prog) : d.role \in {"decl", "fdecl"} /\ d.id = t.id}) = 1
-DeclsDistinct ==
-  LET D == {t \in Toks(prog) : t.role \in {"decl", "fdecl"}} IN
-  /\ Cardinality(D) = Len(decl)
-  /\ {t.id : t \in D} = DOMAIN decl
-UsesVisible ==
-  \A t \in Toks(prog) : t.role \in {"use", "call"} /\ t.id # 0 =>
-      LET d == CHOOSE d \in Toks(prog) : d.role \in {"decl", "fdecl"} /\ d.id = t.id IN
-      \/ d.i < t.i \/ (d.i = t.i /\ d.s < t.s)
-      \/ decl[t.id].st \in {"field", "smember"}
-\* unbound uses exist only while their class is open
-PendingOnlyInClass ==
-  \A t \in Toks(prog) : t.role = "use" /\ t.id = 0 => ClassFrame # 0 /\ \E p \in stack[ClassFrame].pend : p.i = t.i /\ p.s = t.s
+SpecInv ==
+  LET T == Toks(prog)
+      D == {t \in T : t.role \in {"decl", "fdecl"}}
+      U == {t \in T : t.role \in {"use", "call"}}
+      DeclOf(t) == CHOOSE d \in D : d.id = t.id
+  IN  \* UsesBound
+      /\ \A t \in U : t.id # 0 =>
+            /\ t.id \in DOMAIN decl /\ decl[t.id].nm = t.nm
+            /\ Cardinality({d \in D : d.id = t.id}) = 1
+      \* DeclsDistinct
+      /\ Cardinality(D) = Len(decl)
+      /\ {t.id : t \in D} = DOMAIN decl
+      \* UsesVisible
+      /\ \A t \in U : t.id # 0 =>
+            \/ DeclOf(t).i < t.i \/ (DeclOf(t).i = t.i /\ DeclOf(t).s < t.s)
+            \/ decl[t.id].st \in {"field", "smember"}
+      \* unbound uses exist only while their class is open
+      /\ \A t \in U : t.id = 0 => ClassFrame # 0 /\ \E p \in stack[ClassFrame].pend : p.i = t.i /\ p.s = t.s
 
 (***************************************************************************)
 (* Emission of complete programs.                                          *)
@@ -465,7 +474,7 @@ Ends == LET it == prog[Len(prog)] IN
                 \/ \E j \in DOMAIN prog[i].sub : prog[i].sub[j].form \in {"init", "initsrc", "copy", "ref"} /\ prog[i].sub[j].nm = it.nm
 Complete == Size = P.K /\ Ends /\ Finishable
 
-Write(pr) == Serialize(ToJson([prog |-> pr, c |-> IsC(pr)]) \o "\n", IOEnv.OUT,
+Write(pr) == Serialize(ToJson([prog |-> pr, c |-> IsC(pr), profile |-> P.name]) \o "\n", IOEnv.OUT,
                        [format |-> "TXT", charset |-> "UTF-8", openOptions |-> <<"WRITE", "CREATE", "APPEND">>]).exitValue = 0
 Emit == Complete => Write(Finish(stack, prog))
 =============================================================================
